@@ -246,6 +246,60 @@ func main() {
 		fmt.Fprintf(&b, "/-- `handler = X.WithF(handler, …)` statements of buildProxyHandlerChainFunc in source order: the first is the innermost\n    handler (runs last on a request); a trailing `?` marks a conditional wrapper -/\n")
 		fmt.Fprintf(&b, "def proxyChain : List String := %s\n", lib.LeanStrList(chain))
 
+		// --- buildImpersonationRequests refuses references that are not valid UTF-8:
+		//     for _, ref := range impersonationRequests { if !utf8.ValidString(ref.X) || … { return nil, err } }
+		ff := g.ParseFile("pkg/gateway/endpoints/filters/impersonation.go")
+		bi := lib.FuncDecl(ff, "", "buildImpersonationRequests")
+		if bi == nil {
+			lib.Fatalf("buildImpersonationRequests not found")
+		}
+		var utf8Fields []string
+		ast.Inspect(bi, func(n ast.Node) bool {
+			rs, ok := n.(*ast.RangeStmt)
+			if !ok {
+				return true
+			}
+			if id, ok := rs.X.(*ast.Ident); !ok || id.Name != "impersonationRequests" {
+				return true
+			}
+			for _, st := range rs.Body.List {
+				is, ok := st.(*ast.IfStmt)
+				if !ok || len(is.Body.List) == 0 {
+					continue
+				}
+				ret, ok := is.Body.List[len(is.Body.List)-1].(*ast.ReturnStmt)
+				if !ok || len(ret.Results) != 2 {
+					continue
+				}
+				if r0, ok := ret.Results[0].(*ast.Ident); !ok || r0.Name != "nil" {
+					continue
+				}
+				ast.Inspect(is.Cond, func(m ast.Node) bool {
+					ue, ok := m.(*ast.UnaryExpr)
+					if !ok || ue.Op != token.NOT {
+						return true
+					}
+					call, ok := ue.X.(*ast.CallExpr)
+					if !ok || len(call.Args) != 1 {
+						return true
+					}
+					if sel, ok := call.Fun.(*ast.SelectorExpr); ok && sel.Sel.Name == "ValidString" {
+						if x, ok := sel.X.(*ast.Ident); ok && x.Name == "utf8" {
+							if a, ok := call.Args[0].(*ast.SelectorExpr); ok {
+								utf8Fields = append(utf8Fields, a.Sel.Name)
+							}
+						}
+					}
+					return true
+				})
+			}
+			return true
+		})
+		sort.Strings(utf8Fields)
+		fmt.Fprintf(&b, "/-- fields of every impersonation reference `buildImpersonationRequests` requires to be valid UTF-8 (else: error) -/\n")
+		fmt.Fprintf(&b, "def impersonationUTF8Fields : List String := %s\n", lib.LeanStrList(utf8Fields))
+		fmt.Fprintf(&b, "def impersonationRejectsNonUTF8 : Bool := %v\n", len(utf8Fields) > 0)
+
 		// --- the authorizer wiring (shape facts: what a behavioural tie cannot see is WHO else could answer)
 		// (a) AuthorizerConfig.New: every call expression whose result is assigned to / returned as the authorizer
 		af := g.ParseFile("pkg/gateway/proxy/authorizer/config.go")
